@@ -167,7 +167,8 @@ def _cons_shard(spec, emit):
                 steps.append((frac, f.get("stop"), f.get("cert")))
                 if f.get("converged"):
                     counts["converged_steps"] += 1
-                elif f.get("finite_w"):
+                elif f.get("finite_w") and f.get("stop", 0) > 100 * case2.tol():
+                    # (a warm start that is merely slower near the tolerance is not judged: only stalls far from it)
                     # "the same optimality certificate as a cold start": if the cold start reaches the tolerance
                     # within this (generous) budget, the warm start must reach it too
                     o3 = case2.solve(None, None, **{b_it: 60, **({b_ep: 2000} if b_ep == "max_epochs" else ({b_ep: 100} if b_ep else {}))})
